@@ -41,6 +41,10 @@ pub struct ColCfg {
 	pub append_only: bool,
 	pub direct: bool,
 	pub keyset: KeySet,
+	/// If set, the preimage value of key id i has exactly length base + i (size-boundary
+	/// enumeration on columns whose values are a function of the key).
+	#[serde(default)]
+	pub pre_len_base: Option<u32>,
 }
 
 impl ColCfg {
@@ -55,6 +59,7 @@ impl ColCfg {
 			append_only: false,
 			direct: false,
 			keyset: KeySet::Lens,
+			pre_len_base: None,
 		}
 	}
 	pub fn btree() -> ColCfg {
@@ -107,6 +112,10 @@ impl ColCfg {
 		} as u32;
 		// distinct keys must have distinct values ("a given value always has the same key"):
 		// the first two bytes carry the key id, so the minimum length is 2.
+		let len = match self.pre_len_base {
+			Some(b) => b + id as u32,
+			None => len,
+		};
 		let mut v = VSpec { len: len.max(2), fill: (h >> 40) as u8 % 3, seed: id ^ 0x5a5a }.bytes();
 		v[0] = id as u8;
 		v[1] = (id >> 8) as u8;
